@@ -1741,7 +1741,7 @@ pub fn indentation_counters(cx: &mut Ctx, rule: &str) {
         }
     }
     let t = sm::tsx(&f.block);
-    if t.starts_with("{letmutspaces:u32=0;letmuttabs:u32=0;loop{") && t.ends_with("Ok(IndentationLevel{tabs,spaces})}") {
+    if t.starts_with("{letmutspaces:u32=0;letmuttabs:u32=0;loop{") && t.ends_with("Ok(IndentationLevel{spaces,tabs})}") {
         cx.ok(rule, "counters start at 0 and are returned as IndentationLevel { tabs, spaces }");
     } else {
         cx.fail(rule, &format!("{}/frame", rule), &lx.loc(f), "eat_indentation does not start both counters at 0 and return IndentationLevel { tabs, spaces }");
